@@ -29,7 +29,7 @@ RULE = (
 STATE_MEASURE = "(attach-frame class, sequence of target frame classes {inertial, rotating, local}, fault sites)"
 PROBES = [
     "cov_visited_rotating_frame", "local_after_rotating", "drag_cov_with_state", "back_to_attach_frame", "fault_fired_natural",
-    "fault_fired_injected", "atomic_failure_checked", "pickled_then_converted", "cache_dropped", "copy_joined_heap", "attached_in_local_frame", "drag_then_local", "twin_object", "reattached_to_other_state", "cov_built_from_cov", "class_changed_then_converted", "reattached_to_a_state_given_in_another_frame",
+    "fault_fired_injected", "atomic_failure_checked", "pickled_then_converted", "cache_dropped", "copy_joined_heap", "attached_in_local_frame", "drag_then_local", "twin_object", "reattached_to_other_state", "cov_built_from_cov", "class_changed_then_converted", "reattached_to_a_state_given_in_another_frame", "frame_registered_under_a_local_name",
 ]
 REAL_VS_STUB = "real: Cov, StateVector/Orbit, frames/orientations (iau1980/iau2010 with zero or real IERS EOP from the simulated disk), to_local, pickle; stub: none (injected faults are raising wrappers in the node's private package copy); model: own QSW/TNW axes from (r0, v0) in F0, R C R^T with R from a pristine node's single-hop orientation matrix"
 ASSUMPTIONS = [
@@ -124,6 +124,16 @@ def gen_plan(rng, tier, i):
             twin["cov_kind"] = "full"
 
     child = random.Random("c14-child:" + repr(obj["cov_seed"]) + repr(len(ops)))  # operations added after the first version: own generator, earlier plans keep their draws
+    if child.random() < 0.15:
+        # somewhere in the process a frame gets registered under the plain name QSW / TNW (the local frame of another satellite):
+        # for a covariance these two names keep meaning the axes of its own state
+        ops.insert(child.randint(0, len(ops)), {"op": "namesake", "obj": 0, "name": child.choice(LOCAL)})
+        ops.append({"op": "cov_frame", "obj": child.randrange(4), "frame": child.choice(LOCAL)})
+        for o_ in ops:
+            # (the orientation of the Hill frame goes by the same name: once a connected frame is called QSW / TNW, "Hill" is no longer a
+            # target that is certain to fail)
+            if (o_.get("fail") or {}).get("what") == "hill":
+                o_["fail"] = dict(o_["fail"], what="unknown")
     for o_ in ops:
         if o_["op"] == "reattach" and child.random() < 0.6:
             o_["owner_frame"] = child.choice(INERTIAL)
@@ -677,6 +687,19 @@ class World:
             ctx.violate("pure-conversion", {"kind": "receiver_changed_by_cov_constructor"}, f"{where}: Cov(other, cov, None) modified the covariance it copies")
         if np.shares_memory(np.asarray(sv2.cov), np.asarray(o.cov)):
             ctx.violate("pure-conversion", {"kind": "cov_copy_shares_memory", "via": "constructor"}, f"{where}: the covariance built from another one shares its buffer with it")
+
+    def op_namesake(self, j, o, m, op, T, fail, before, where):
+        """Another satellite registers its local orbital frame under the plain name "QSW" / "TNW"."""
+        n = self.node
+        date = world.mk_date(n, m.date[:2], m.date[2])
+        other = n.Orbit(self.plan["knobs"]["kep_b"], date, "keplerian", "EME2000", n.mod("beyond.propagators.kepler").Kepler())
+        try:
+            other.as_frame(op["name"], orientation=op["name"])
+        except Exception:  # noqa
+            return
+        self.ctx.probe("frame_registered_under_a_local_name")
+        self.ctx.fault("msg_interleaved_registration")
+        self.ctx.sig.append(("namesake", op["name"], "", ""))
 
     def op_as_other(self, j, o, m, op, T, fail, before, where):
         """StateVector.as_orbit(propagator) / Orbit.as_statevector(): the same state and the same covariance under the other class;
